@@ -266,17 +266,20 @@ public:
   iterator begin() { return iterator(nodeData.data()); }
   iterator end() { return iterator(nodeData.end()); }
 
+  // pointer arithmetic instead of &nodeData[i]: an empty graph has no array to
+  // form a reference into
   local_iterator local_begin() {
-    return local_iterator(&nodeData[this->localBegin(numNodes)]);
+    return local_iterator(nodeData.data() + this->localBegin(numNodes));
   }
   local_iterator local_end() {
-    return local_iterator(&nodeData[this->localEnd(numNodes)]);
+    return local_iterator(nodeData.data() + this->localEnd(numNodes));
   }
   const_local_iterator local_begin() const {
-    return const_local_iterator(&nodeData[this->localBegin(numNodes)]);
+    return const_local_iterator(nodeData.data() +
+                                this->localBegin(numNodes));
   }
   const_local_iterator local_end() const {
-    return const_local_iterator(&nodeData[this->localEnd(numNodes)]);
+    return const_local_iterator(nodeData.data() + this->localEnd(numNodes));
   }
 
   edge_iterator edge_begin(GraphNode N, MethodFlag mflag = MethodFlag::WRITE) {
